@@ -39,6 +39,7 @@ inductive Op where
   | ctxAddr | ctxIdtor | ctxCcharp | ctxType | ctxElemLenStrlen | ctxSize1 | ctxRank0
   | fAllocate | fCopyString
   | vecDecl | vecInLoop | vecOutLoop
+  | userRelease          -- user `final:` clause releasing the result: `delete {cxx_var};` / `free(..)`
   deriving DecidableEq, Repr
 
 structure Entry where
@@ -69,6 +70,8 @@ structure St where
   ctxlen : Nat            -- context `elem_len`
   seen : Option (List Nat)            -- text received by the library
   seenArr : Option (List (List Nat))  -- texts received by the library (arrays)
+  cxxLive : Bool          -- the storage of the result (`cxx_var`) has not been released by a user clause
+  released : Nat          -- executions of a user release
   deriving Repr
 
 def natLen (s : St) : LenArg → Res Nat
@@ -101,10 +104,10 @@ def exec (o : Op) (s : St) : Res St :=
   | .strFree => if s.heap then .ok { s with heap := false, cxxC := none, live := s.live - 1 } else .oob
   | .strCopyC nd =>
     (needCvar s).bind fun _ => (natLen s nd).bind fun n =>
-    (strCopy s.f n s.cxxC (-1)).bind fun f => .ok { s with f := f }
+    if s.cxxLive then (strCopy s.f n s.cxxC (-1)).bind fun f => .ok { s with f := f } else .oob
   | .strCopyStd nd =>
     (needCvar s).bind fun _ => (natLen s nd).bind fun n =>
-    (strCopyStd s.f n s.cxxS).bind fun f => .ok { s with f := f }
+    if s.cxxLive then (strCopyStd s.f n s.cxxS).bind fun f => .ok { s with f := f } else .oob
   | .strCopyNull nd =>
     (needCvar s).bind fun _ => (natLen s nd).bind fun n =>
     (strCopy s.f n none 0).bind fun f => .ok { s with f := f }
@@ -124,7 +127,7 @@ def exec (o : Op) (s : St) : Res St :=
     (memset s.f 0 BLANK n).bind fun f => .ok { s with f := f }
   | .storeFirst => (needCvar s).bind fun _ => (wr s.f 0 s.ch).bind fun f => .ok { s with f := f }
   | .cfiAllocate a =>
-    if s.cfi then
+    if s.cfi && s.cxxLive then
       ((match a with
         | .strlenCxx => (match s.cxxC with | some b => strlen b | none => Res.oob)
         | .lengthCxx => Res.ok s.cxxS.length
@@ -132,10 +135,10 @@ def exec (o : Op) (s : St) : Res St :=
       .ok { s with f := List.replicate n UNINIT, lenv := n, ret := true }
     else .oob
   | .memcpyBaseC a =>
-    (natLen s a).bind fun k =>
+    (if s.cxxLive then natLen s a else .oob).bind fun k =>
     (match s.cxxC with | some b => memcpy s.f 0 b 0 k | none => .oob).bind fun f => .ok { s with f := f }
   | .memcpyBaseS a =>
-    ((match a with | .lengthCxx => Res.ok s.cxxS.length | a => natLen s a) : Res Nat).bind fun k =>
+    ((if s.cxxLive then (match a with | .lengthCxx => Res.ok s.cxxS.length | a => natLen s a) else .oob) : Res Nat).bind fun k =>
     (memcpy s.f 0 (s.cxxS ++ [NUL]) 0 k).bind fun f => .ok { s with f := f }
   | .strArrayAlloc =>
     (natLen s .size).bind fun n => (natLen s .len).bind fun l =>
@@ -143,11 +146,13 @@ def exec (o : Op) (s : St) : Res St :=
   | .strArrayFree =>
     (natLen s .size).bind fun n =>
     (strArrayFree s.arr n).bind fun rest => .ok { s with arr := [], live := s.live - 1 - s.arr.length + rest.length }
-  | .strToArray => .ok { s with ctxp := (strToArray s.cxxS).1, ctxlen := (strToArray s.cxxS).2 }
+  | .strToArray =>
+    if s.cxxLive then .ok { s with ctxp := (strToArray s.cxxS).1, ctxlen := (strToArray s.cxxS).2 } else .oob
   | .newString => .ok s
   | .ctxCcharp => .ok { s with ctxp := s.cxxC }
   | .ctxElemLenStrlen =>
-    ((match s.cxxC with | none => Res.ok 0 | some b => strlen b) : Res Nat).bind fun n => .ok { s with ctxlen := n }
+    ((match s.cxxC with | none => Res.ok 0 | some b => if s.cxxLive then strlen b else .oob) : Res Nat).bind fun n =>
+    .ok { s with ctxlen := n }
   | .ctxAddr | .ctxIdtor | .ctxType | .ctxSize1 | .ctxRank0 => .ok s
   | .fAllocate => .ok { s with f := List.replicate s.ctxlen UNINIT, lenv := s.ctxlen }
   | .fCopyString => (copyString s.ctxp s.ctxlen s.f s.ctxlen).bind fun f => .ok { s with f := f }
@@ -158,6 +163,7 @@ def exec (o : Op) (s : St) : Res St :=
   | .vecOutLoop =>
     (natLen s .size).bind fun n => (natLen s .len).bind fun l =>
     (vecStringOut s.f l 0 n s.vec).bind fun f => .ok { s with f := f }
+  | .userRelease => .ok { s with cxxLive := false, released := s.released + 1 }
   | .ifEmpty | .ifNotNull | .ifSuccess | .else_ | .endIf => .ok s
 
 def active (s : St) : Bool := s.conds.all id
@@ -165,7 +171,9 @@ def active (s : St) : Bool := s.conds.all id
 /-- a line inside its enclosing `if` blocks -/
 def step (o : Op) (s : St) : Res St :=
   match o with
-  | .ifEmpty => .ok { s with conds := (active s && s.cxxS.isEmpty) :: s.conds }
+  | .ifEmpty =>
+    -- `cxx_var.empty()` reads the string object
+    if s.cxxLive || !active s then .ok { s with conds := (active s && s.cxxS.isEmpty) :: s.conds } else .oob
   | .ifNotNull => .ok { s with conds := (active s && s.cxxC.isSome) :: s.conds }
   | .ifSuccess => .ok { s with conds := (active s && s.ret) :: s.conds }
   | .else_ =>
@@ -243,7 +251,7 @@ def init (e : Entry) (cfi aliasF : Bool) (t : Buf) (size len : Nat) : St :=
     trimv := if e.lens.contains .trim then some (rtrim t).length else none,
     cvar := !cfi, cxxC := none, cxxIsF := aliasF, heap := false, cxxS := [], ch := 0, arr := [],
     vec := [], live := 0, conds := [], ret := false, ctxp := none, ctxlen := 0, seen := none,
-    seenArr := none }
+    seenArr := none, cxxLive := true, released := 0 }
 
 def finish (s : St) : Res Out :=
   if s.conds.isEmpty then .ok ⟨s.seen, s.seenArr, s.f, s.live, s.ret⟩ else .oob
@@ -255,6 +263,48 @@ def flowArr (e : Entry) (cfi aliasF : Bool) (t : Buf) (size len : Nat) (l : Lib)
 
 def flow (e : Entry) (cfi aliasF : Bool) (t : Buf) (l : Lib) : Res Out :=
   flowArr e cfi aliasF t 1 t.length l
+
+/-- the statement groups `Wrapc.wrap_function` assembles the body of a C wrapper from; their order
+    is regenerated from real output into `Gen.wrapOrder` -/
+inductive Group where
+  | preCall | call | postCall | final | ret
+  deriving DecidableEq, Repr
+
+/-- run the groups in the given order; `fin` is a user supplied `final:` clause (fstatements) -/
+def runGroups (e : Entry) (fin : List Op) (l : Lib) : List Group → St → Res St
+  | [], s => .ok s
+  | .preCall :: gs, s => (run e.pre s).bind (runGroups e fin l gs)
+  | .call :: gs, s => (call l s).bind (runGroups e fin l gs)
+  | .postCall :: gs, s => (run e.post s).bind (runGroups e fin l gs)
+  | .final :: gs, s => (run fin s).bind (runGroups e fin l gs)
+  | .ret :: _, s => .ok s          -- nothing after `return` is executed
+
+/-- the C wrapper body assembled in `order`: the outcome and the number of user releases -/
+def flowWith (order : List Group) (e : Entry) (fin : List Op) (cfi aliasF : Bool) (t : Buf) (l : Lib) :
+    Res (Out × Nat) :=
+  (runGroups e fin l order (init e cfi aliasF t 1 t.length)).bind fun s =>
+  (finish s).map fun o => (o, s.released)
+
+/-- an op that reads the storage of the result (`cxx_var`) -/
+def readsCxx : Op → Bool
+  | .strCopyC _ | .strCopyStd _ | .ifEmpty | .cfiAllocate _ | .memcpyBaseC _ | .memcpyBaseS _
+  | .strToArray | .ctxElemLenStrlen => true
+  | _ => false
+
+/-- the template lines of the body, in the order they are emitted -/
+def linearize (e : Entry) (fin : List Op) : List Group → List Op
+  | [] => []
+  | .preCall :: gs => e.pre ++ linearize e fin gs
+  | .call :: gs => linearize e fin gs
+  | .postCall :: gs => e.post ++ linearize e fin gs
+  | .final :: gs => fin ++ linearize e fin gs
+  | .ret :: _ => []
+
+/-- no line reads the result after a line released it -/
+def noReadAfterRelease : List Op → Bool
+  | [] => true
+  | .userRelease :: os => os.all (fun o => !readsCxx o) && noReadAfterRelease os
+  | _ :: os => noReadAfterRelease os
 
 /-- allocatable result: C entry, then the Fortran entry (`allocate`, `copy_string`) when there is one -/
 def flowAlloc (c : Entry) (fside : Option Entry) (cfi : Bool) (l : Lib) : Res Out :=
